@@ -6,14 +6,22 @@ use crate::cli::*;
 use crate::evidence::Report;
 use serde_json::json;
 
-const RK: [(&str, &str); 6] = [
+const RK: [(&str, &str); 12] = [
     ("PASSING", "rule p when a exists { a exists }\n"),
     ("FAILING", "rule f when a exists { a == 1 }\n"),
     ("SKIPPING", "rule s when z exists { a == 1 }\n"),
     ("BROKEN", "rule b { a == }\n"),
     ("EMPTY", "# only a comment\n"),
     ("ERRORING", "rule e { a empty }\n"),
+    // the same evaluation error raised at other sites (each guarded so that a document without `a` skips the rule)
+    ("ERRORING-WHEN-BODY", "rule e { when a exists { a empty } }\n"),
+    ("ERRORING-WHEN-COND", "rule e when a exists { when a empty { a exists } }\n"),
+    ("ERRORING-BLOCK", "rule e when a exists { this { a empty } }\n"),
+    ("ERRORING-FILTER", "rule e when a exists { this[ a empty ] exists }\n"),
+    ("ERRORING-OR", "rule e when a exists { a == 3 or a empty }\n"),
+    ("ERRORING-UNDEFINED", "rule e when a exists { when a exists { %undefined exists } }\n"),
 ];
+const RK_BASIC: usize = 6;
 const DK: [(&str, &str); 5] = [("COMPLIANT", "{\"a\": 1}\n"), ("NONCOMPLIANT", "{\"a\": 2}\n"), ("MALFORMED", "{\"a\": [1,\n"), ("EMPTY", ""), ("INAPPLICABLE", "{\"q\": 1}\n")];
 
 #[derive(Clone, Copy, Debug, PartialEq)]
@@ -77,7 +85,7 @@ pub fn allowed_exit(rules: &[usize], data: &[usize], mode: Mode) -> Allowed {
         return Allowed::ErrorExit;
     }
     // `a empty` is undefined on a number: an evaluation error whenever some document carries a numeric `a`
-    if rules.iter().any(|r| RK[*r].0 == "ERRORING") && data.iter().any(|d| DK[*d].0 == "COMPLIANT" || DK[*d].0 == "NONCOMPLIANT") {
+    if rules.iter().any(|r| RK[*r].0.starts_with("ERRORING")) && data.iter().any(|d| DK[*d].0 == "COMPLIANT" || DK[*d].0 == "NONCOMPLIANT") {
         return Allowed::ErrorExit;
     }
     let pe = rules.iter().any(|r| RK[*r].0 == "BROKEN");
@@ -256,8 +264,18 @@ pub fn build_case(rules: &[usize], data: &[usize], mode: Mode) -> Option<(Vec<St
 }
 
 // ------------------------------------------------------------------ test command
-const TRULES: [(&str, &str); 2] = [("valid", "rule f { a == 1 }\nrule p { a exists }\n"), ("BROKEN", "rule f { a == }\n")];
-const TFILES: [(&str, &str); 5] = [
+const TRULES: [(&str, &str); 2] = [("valid", "rule f { a == 1 }\nrule p { a exists }\nrule s when b exists { a == 1 }\n"), ("BROKEN", "rule f { a == }\n")];
+// exp-X-got-Y: rule s is expected X and evaluates to Y (b absent: SKIP; b present: a == 1 decides)
+const TFILES: [(&str, &str); 14] = [
+    ("exp-PASS-got-PASS", "- input: {a: 1, b: 1}\n  expectations:\n    rules:\n      s: PASS\n"),
+    ("exp-PASS-got-FAIL", "- input: {a: 2, b: 1}\n  expectations:\n    rules:\n      s: PASS\n"),
+    ("exp-PASS-got-SKIP", "- input: {a: 1}\n  expectations:\n    rules:\n      s: PASS\n"),
+    ("exp-FAIL-got-PASS", "- input: {a: 1, b: 1}\n  expectations:\n    rules:\n      s: FAIL\n"),
+    ("exp-FAIL-got-FAIL", "- input: {a: 2, b: 1}\n  expectations:\n    rules:\n      s: FAIL\n"),
+    ("exp-FAIL-got-SKIP", "- input: {a: 2}\n  expectations:\n    rules:\n      s: FAIL\n"),
+    ("exp-SKIP-got-PASS", "- input: {a: 1, b: 1}\n  expectations:\n    rules:\n      s: SKIP\n"),
+    ("exp-SKIP-got-FAIL", "- input: {a: 2, b: 1}\n  expectations:\n    rules:\n      s: SKIP\n"),
+    ("exp-SKIP-got-SKIP", "- input: {a: 1}\n  expectations:\n    rules:\n      s: SKIP\n"),
     ("all-match", "- input: {a: 1}\n  expectations:\n    rules:\n      f: PASS\n      p: PASS\n- input: {a: 2}\n  expectations:\n    rules:\n      f: FAIL\n      p: PASS\n"),
     ("one-mismatch", "- input: {a: 2}\n  expectations:\n    rules:\n      f: PASS\n      p: PASS\n"),
     ("malformed", "- input: {a: 1\n  expectations\n"),
@@ -279,7 +297,16 @@ fn test_allowed(rk: usize, files: &[usize]) -> TAllowed {
     if files.iter().any(|f| TFILES[*f].0 == "malformed" || TFILES[*f].0 == "bad-status-word") {
         return TAllowed::NonZero;
     }
-    if files.iter().any(|f| TFILES[*f].0 == "one-mismatch") {
+    let mismatch = |n: &str| -> bool {
+        if n == "one-mismatch" {
+            return true;
+        }
+        match n.strip_prefix("exp-").and_then(|r| r.split_once("-got-")) {
+            Some((e, g)) => e != g,
+            None => false,
+        }
+    };
+    if files.iter().any(|f| mismatch(TFILES[*f].0)) {
         return TAllowed::Seven;
     }
     TAllowed::Zero
@@ -316,6 +343,11 @@ pub fn run(tier: &str) -> i32 {
     let mut cases: Vec<(usize, usize, Mode)> = vec![];
     for (ri, r) in rs.iter().enumerate() {
         for (di, d) in ds.iter().enumerate() {
+            // the error-site variants: at most one per sequence, sequences of one or two rules files
+            let variants = r.iter().filter(|k| **k >= RK_BASIC).count();
+            if variants > 1 || (variants == 1 && r.len() > 2) {
+                continue;
+            }
             for m in MODES {
                 if m == Mode::StdinData && d.len() != 1 {
                     continue;
